@@ -17,43 +17,119 @@ ghost field Shard.gPostExtra int
 ghost field Shard.gList set[uint64]
 // the coordinator-side shardInfo built for this shard in the current cycle
 ghost field Shard.gInfo ref
+// hashes of the target list that UpdateTarget is about to POST
+ghost global gPostedKeys set[uint64]
 
 pred sameRequests(r) = r.gGets == old(r.gGets) && r.gPostCfg == old(r.gPostCfg) && r.gPostTargets == old(r.gPostTargets) && r.gPostExtra == old(r.gPostExtra)
 
+// string concatenation is injective in its second operand (used to tell the request URLs apart)
+decl strconcat(int, int) : int
+axiom forall a, b, c : int :: strconcat(a, b) == strconcat(a, c) ==> b == c
+
+// ---------- the HTTP layer (assumed): what a GET / POST against a sidecar does ----------
+// GET: decodes the sidecar's answer into the value ret points to. A status report is a non-nil map of fresh,
+// well-formed entries whose key set is the sidecar's current list; a runtime report is a non-nil fresh object with
+// non-negative loads. A failing GET leaves the decode target untouched.
+contract field Shard.APIGet(url, ret)
+  ensures self.gGets == old(self.gGets) + 1 && self.gPostCfg == old(self.gPostCfg) && self.gPostTargets == old(self.gPostTargets) && self.gPostExtra == old(self.gPostExtra)
+  ensures self.gList == old(self.gList)
+  ensures whentype(ret, "*map[uint64]*tkestack.io/kvass/pkg/target.ScrapeStatus",
+       (result == nil ==> pointee(ret) != nil && fresh(pointee(ret)) && keys(pointee(ret)) == self.gList && (forall h, st in pointee(ret) :: wfStatus(st) && fresh(st)))
+       && (result != nil ==> pointee(ret) == old(pointee(ret))))
+  ensures whentype(ret, "**tkestack.io/kvass/pkg/shard.RuntimeInfo",
+       (result == nil ==> pointee(ret) != nil && fresh(pointee(ret)) && pointee(ret).HeadSeries >= 0 && pointee(ret).ProcessSeries >= 0)
+       && (result != nil ==> pointee(ret) == old(pointee(ret))))
+  modifies pointee(ret), Shard.gGets at {self}, target.ScrapeStatus.* at {}, RuntimeInfo.* at {}, mapof(Shard.scraping) at {}
+
+// POST: the request kind is told by the URL; a successful POST of targets replaces the sidecar's list by the posted one
+contract field Shard.APIPost(url, req, ret)
+  ensures self.gGets == old(self.gGets)
+  ensures url == strconcat(self.url, "/api/v1/shard/targets/") ==> (self.gPostTargets == old(self.gPostTargets) + 1 && self.gPostCfg == old(self.gPostCfg) && self.gPostExtra == old(self.gPostExtra)
+        && (result == nil ==> self.gList == gPostedKeys) && (result != nil ==> self.gList == old(self.gList)))
+  ensures url == strconcat(self.url, "/api/v1/status/config") ==> (self.gPostCfg == old(self.gPostCfg) + 1 && self.gPostTargets == old(self.gPostTargets) && self.gPostExtra == old(self.gPostExtra) && self.gList == old(self.gList))
+  ensures url == strconcat(self.url, "/api/v1/status/extra_config") ==> (self.gPostExtra == old(self.gPostExtra) + 1 && self.gPostTargets == old(self.gPostTargets) && self.gPostCfg == old(self.gPostCfg) && self.gList == old(self.gList))
+  modifies Shard.gPostTargets at {self}, Shard.gPostCfg at {self}, Shard.gPostExtra at {self}, Shard.gList at {self}
+
+// ---------- the client methods (verified against the HTTP layer) ----------
+// the cached copy made by TargetStatus: same keys, distinct objects, same states as the report (needUpdate compares
+// the next plan with this cache, so it must not alias anything the coordinator mutates)
+pred cacheIsCopy(r, rep) = r.scraping != nil && r.scraping != rep && keys(r.scraping) == keys(rep)
+    && (forall h in rep :: r.scraping[h] != nil && fresh(r.scraping[h]) && r.scraping[h] != rep[h] && r.scraping[h].TargetState == rep[h].TargetState)
+
 contract Shard.TargetStatus
-  requires r != nil
+  requires r != nil && r.APIGet != nil
   ensures r.gGets == old(r.gGets) + 1 && r.gPostCfg == old(r.gPostCfg) && r.gPostTargets == old(r.gPostTargets) && r.gPostExtra == old(r.gPostExtra)
   ensures r.gList == old(r.gList)
   ensures result0 != nil && fresh(result0) && (forall h, st in result0 :: wfStatus(st) && fresh(st))
   ensures result1 == nil ==> keys(result0) == r.gList
+  ensures[C01] @cache_is_a_copy_of_the_report result1 == nil ==> cacheIsCopy(r, result0)
   modifies Shard.scraping at {r}, Shard.gGets at {r}, target.ScrapeStatus.* at {}, mapof(Shard.scraping) at {}
+  loop 1 invariant res != nil && fresh(res) && m != nil && fresh(m) && m != res && (forall h, st in res :: wfStatus(st) && fresh(st)) && keys(res) == r.gList
+  loop 1 invariant forall h in visited1 :: (h in m && m[h] != nil && fresh(m[h]) && m[h] != res[h] && m[h].TargetState == res[h].TargetState)
+  loop 1 invariant forall h in m :: h in visited1
+  loop 1 invariant forall h in visited1 :: h in res
+  loop 1 invariant r.gGets == old(r.gGets) + 1 && r.gPostCfg == old(r.gPostCfg) && r.gPostTargets == old(r.gPostTargets) && r.gPostExtra == old(r.gPostExtra) && r.gList == old(r.gList)
 
 contract Shard.RuntimeInfo
-  requires r != nil
+  requires r != nil && r.APIGet != nil
   ensures r.gGets == old(r.gGets) + 1 && r.gPostCfg == old(r.gPostCfg) && r.gPostTargets == old(r.gPostTargets) && r.gPostExtra == old(r.gPostExtra)
+  ensures r.gList == old(r.gList)
   ensures result0 != nil && fresh(result0)
   ensures result1 == nil ==> result0.HeadSeries >= 0 && result0.ProcessSeries >= 0
   modifies Shard.gGets at {r}, RuntimeInfo.* at {}
 
 contract Shard.UpdateConfig
-  requires r != nil
-  ensures r.gPostCfg == old(r.gPostCfg) + 1 && r.gGets == old(r.gGets) && r.gPostTargets == old(r.gPostTargets) && r.gPostExtra == old(r.gPostExtra)
+  requires r != nil && r.APIPost != nil
+  ensures r.gPostCfg == old(r.gPostCfg) + 1 && r.gGets == old(r.gGets) && r.gPostTargets == old(r.gPostTargets) && r.gPostExtra == old(r.gPostExtra) && r.gList == old(r.gList)
   modifies Shard.gPostCfg at {r}
 
 contract Shard.UpdateExtraConfig
-  requires r != nil
-  ensures r.gPostExtra == old(r.gPostExtra) + 1 && r.gGets == old(r.gGets) && r.gPostTargets == old(r.gPostTargets) && r.gPostCfg == old(r.gPostCfg)
+  requires r != nil && r.APIPost != nil
+  ensures r.gPostExtra == old(r.gPostExtra) + 1 && r.gGets == old(r.gGets) && r.gPostTargets == old(r.gPostTargets) && r.gPostCfg == old(r.gPostCfg) && r.gList == old(r.gList)
   modifies Shard.gPostExtra at {r}
 
+// needUpdate: false only if the plan has exactly the cached keys, is not empty, and every planned state equals the cached one
+contract Shard.needUpdate
+  requires r != nil && (forall h, t in targets :: t != nil)
+  ensures[C01,C05] @no_update_only_if_nothing_changed !result ==> (len(targets) != 0 && keys(targets) == keys(r.scraping)
+        && (forall h, t in targets :: r.scraping[h] != nil && r.scraping[h].TargetState == t.TargetState))
+  ensures[C08] @unchanged_plan_is_not_resent (len(targets) != 0 && keys(targets) == keys(r.scraping) && (forall h, t in targets :: r.scraping[h] != nil && r.scraping[h].TargetState == t.TargetState)) ==> !result
+  modifies nothing
+  loop 1 invariant forall h in visited1 :: (r.scraping[h] != nil && r.scraping[h].TargetState == targets[h].TargetState)
+
+// ghost view of a target list handed to UpdateTarget: the hashes it contains, with a position for each (set by whoever built the list)
+ghost global gListHashes refsetmap
+ghost global gListWJob refseqmap
+ghost global gListWIdx refseqmap
+pred listHashesWitnessed(m) = forall h in gListHashes[m] :: (gListWJob[m][h] in m && 0 <= gListWIdx[m][h] && gListWIdx[m][h] < len(m[gListWJob[m][h]])
+      && m[gListWJob[m][h]][gListWIdx[m][h]] != nil && m[gListWJob[m][h]][gListWIdx[m][h]].Hash == h)
+
+on call Shard.APIPost(url, req, ret) in Shard.UpdateTarget
+   do gPostedKeys = keys(newTargets)
+
+// UpdateTarget: a POST of targets is issued exactly when the plan differs from the cached report; when it succeeds the
+// sidecar's list contains every hash of the request; otherwise the list is unchanged
 contract Shard.UpdateTarget
-  requires r != nil && request != nil
+  requires r != nil && request != nil && r.APIPost != nil && (forall job, l in request.Targets :: forall t in l :: t != nil)
+  requires listHashesWitnessed(request.Targets)
   ensures r.gPostTargets >= old(r.gPostTargets) && r.gPostTargets <= old(r.gPostTargets) + 1
   ensures r.gGets == old(r.gGets) && r.gPostCfg == old(r.gPostCfg) && r.gPostExtra == old(r.gPostExtra)
-  modifies Shard.gPostTargets at {r}, Shard.gList at {r}
+  ensures[C01] @posted_list_contains_the_request (result == nil && r.gPostTargets != old(r.gPostTargets)) ==> (forall h in gListHashes[request.Targets] :: h in r.gList)
+  ensures[C01] @no_post_keeps_the_list r.gPostTargets == old(r.gPostTargets) ==> r.gList == old(r.gList)
+  ensures[C01] @failed_post_keeps_the_list result != nil ==> r.gList == old(r.gList)
+  modifies Shard.gPostTargets at {r}, Shard.gList at {r}, gPostedKeys
+  loop 1 invariant newTargets != nil && fresh(newTargets) && (forall h, t in newTargets :: t != nil)
+  loop 1 invariant forall jb in visited1 :: forall t in request.Targets[jb] :: t.Hash in newTargets
+  loop 1 invariant forall jb in visited1 :: jb in request.Targets
+  loop 2 invariant newTargets != nil && fresh(newTargets) && (forall h, t in newTargets :: t != nil)
+  loop 2 invariant forall jb in visited1 :: (jb != key1 ==> forall t in request.Targets[jb] :: t.Hash in newTargets)
+  loop 2 invariant forall jb in visited1 :: jb in request.Targets
+  loop 2 invariant forall j in 0..idx2 :: ts[j].Hash in newTargets
+  loop 2 invariant key1 in request.Targets && ts == request.Targets[key1]
 
 // ---------- shard managers (assumed: implemented by the kubernetes / static managers) ----------
 contract interface Manager.Shards()
-  ensures result1 == nil ==> fresh(result0) && (forall s in result0 :: s != nil && fresh(s) && s.gInfo == nil)
+  ensures result1 == nil ==> fresh(result0) && (forall s in result0 :: s != nil && fresh(s) && s.gInfo == nil && s.APIGet != nil && s.APIPost != nil)
   ensures result1 == nil ==> (forall a in 0..len(result0) :: forall b in 0..len(result0) :: a != b ==> result0[a] != result0[b])
   modifies Shard.* at {}
 
